@@ -187,7 +187,7 @@ func buildOverlay(spec *Spec, forTest bool) (map[string][]byte, error) {
 			sb.WriteString("\tfor _, o := range verifRun(name, f) {\n\t\tfmt.Println(\"VERIF-OUTCOME:\", o)\n\t}\n")
 		}
 		sb.WriteString("\tfmt.Println(\"VERIF-DONE\")\n}\n")
-		ov[filepath.Join(dst, "zz_verif_replay_test.go")] = []byte(sb.String())
+		ov[filepath.Join(dst, "zz_verif_zmain_test.go")] = []byte(sb.String())
 	}
 	return ov, nil
 }
